@@ -37,7 +37,12 @@ enum Visible {
 	Panic(String),
 }
 
-fn run_to_visible(i: usize, futs: &mut [Option<TaskFut>], results: &mut [Option<Value>], wait_ms: u64) -> Visible {
+fn run_to_visible(
+	i: usize,
+	futs: &mut [Option<TaskFut>],
+	results: &mut [Option<Value>],
+	wait_ms: u64,
+) -> Visible {
 	loop {
 		si::with(|s| {
 			s.current = i;
@@ -71,7 +76,12 @@ fn run_to_visible(i: usize, futs: &mut [Option<TaskFut>], results: &mut [Option<
 			}
 			Ok(Poll::Pending) => {}
 		}
-		if let Some(true) = si::with(|s| matches!(s.status[i], Status::AtAcquire(_, _) | Status::WaitingWrite(_))) {
+		if let Some(true) = si::with(|s| {
+			matches!(
+				s.status[i],
+				Status::AtAcquire(_, _) | Status::WaitingWrite(_)
+			)
+		}) {
 			return Visible::Point;
 		}
 		// invisible step in progress: wait for the task's waker or for a response to be held
@@ -104,15 +114,26 @@ fn run_to_visible(i: usize, futs: &mut [Option<TaskFut>], results: &mut [Option<
 
 pub fn run_sched(req: &Value) -> Value {
 	let t_wall = Instant::now();
-	let script: Vec<Value> = req.get("script").and_then(|v| v.as_array()).cloned().unwrap_or_default();
+	let script: Vec<Value> = req
+		.get("script")
+		.and_then(|v| v.as_array())
+		.cloned()
+		.unwrap_or_default();
 	run_reset(script);
 	with_run(|r| r.observe_files = false);
 	let schedule: Vec<usize> = req
 		.get("schedule")
 		.and_then(|v| v.as_array())
-		.map(|a| a.iter().filter_map(|x| x.as_u64().map(|v| v as usize)).collect())
+		.map(|a| {
+			a.iter()
+				.filter_map(|x| x.as_u64().map(|v| v as usize))
+				.collect()
+		})
 		.unwrap_or_default();
-	let max_steps = req.get("max_steps").and_then(|v| v.as_u64()).unwrap_or(2000) as usize;
+	let max_steps = req
+		.get("max_steps")
+		.and_then(|v| v.as_u64())
+		.unwrap_or(2000) as usize;
 	let wait_ms = req.get("wait_ms").and_then(|v| v.as_u64()).unwrap_or(15000);
 	let dir = super::scenario::make_scratch();
 	let gate: Gate = Arc::new(|ca_name: &str, cp: usize| {
@@ -131,7 +152,9 @@ pub fn run_sched(req: &Value) -> Value {
 				Some(s) if s.released.contains(&cp) => return,
 				_ => {}
 			}
-			let (ng, _) = CV.wait_timeout(g, Duration::from_millis(200)).unwrap_or_else(|e| e.into_inner());
+			let (ng, _) = CV
+				.wait_timeout(g, Duration::from_millis(200))
+				.unwrap_or_else(|e| e.into_inner());
 			g = ng;
 		}
 	});
@@ -166,15 +189,21 @@ pub fn run_sched(req: &Value) -> Value {
 		write_files(o);
 		let config = format!("{dir}/main.toml");
 		let warm = rt.block_on(async {
-			let mut srv = MainEventLoop::new(&config, &[]).await.map_err(|e| e.message)?;
+			let mut srv = MainEventLoop::new(&config, &[])
+				.await
+				.map_err(|e| e.message)?;
 			let (certs, accounts, endpoints) = srv.verif_parts();
 			let mut ids: Vec<String> = certs.keys().cloned().collect();
 			ids.sort();
 			for id in ids {
 				let c = &certs[&id];
-				crate::acme_proto::request_certificate(c, accounts[&c.account_name].clone(), endpoints[&c.endpoint_name].clone())
-					.await
-					.map_err(|e| e.message)?;
+				crate::acme_proto::request_certificate(
+					c,
+					accounts[&c.account_name].clone(),
+					endpoints[&c.endpoint_name].clone(),
+				)
+				.await
+				.map_err(|e| e.message)?;
 			}
 			Ok::<(), String>(())
 		});
@@ -245,7 +274,9 @@ pub fn run_sched(req: &Value) -> Value {
 		let c = &certs[id];
 		let acc = accounts[&c.account_name].clone();
 		let ept = endpoints[&c.endpoint_name].clone();
-		futs.push(Some(Box::pin(crate::acme_proto::request_certificate(c, acc, ept))));
+		futs.push(Some(Box::pin(crate::acme_proto::request_certificate(
+			c, acc, ept,
+		))));
 	}
 	let mut results: Vec<Option<Value>> = vec![None; n];
 	si::start(n);
@@ -259,7 +290,8 @@ pub fn run_sched(req: &Value) -> Value {
 			match run_to_visible(i, &mut futs, &mut results, wait_ms) {
 				Visible::Timeout => {
 					verdict = "timeout";
-					detail = format!("task {i} made no progress while reaching its first visible point");
+					detail =
+						format!("task {i} made no progress while reaching its first visible point");
 					break 'main;
 				}
 				Visible::Panic(m) => {
@@ -313,12 +345,18 @@ pub fn run_sched(req: &Value) -> Value {
 						Status::AtAcquire(id, w) => format!(
 							"{t}:{}:{}",
 							if *w { "write" } else { "read" },
-							lock_names.get(id).cloned().unwrap_or_else(|| format!("lock{id}"))
+							lock_names
+								.get(id)
+								.cloned()
+								.unwrap_or_else(|| format!("lock{id}"))
 						),
 						Status::RespHeld(cp) => format!("{t}:resp:{cp}"),
 						Status::WaitingWrite(id) => format!(
 							"{t}:enter-write:{}",
-							lock_names.get(id).cloned().unwrap_or_else(|| format!("lock{id}"))
+							lock_names
+								.get(id)
+								.cloned()
+								.unwrap_or_else(|| format!("lock{id}"))
 						),
 						_ => format!("{t}:?"),
 					})
@@ -359,15 +397,28 @@ pub fn run_sched(req: &Value) -> Value {
 				verdict = "step-horizon";
 				break;
 			}
-			let choice = if step < schedule.len() { schedule[step] } else { 0 };
+			let choice = if step < schedule.len() {
+				schedule[step]
+			} else {
+				0
+			};
 			if choice >= enabled.len() {
 				verdict = "schedule-divergence";
-				detail = format!("step {step}: choice {choice} but only {} task(s) enabled", enabled.len());
+				detail = format!(
+					"step {step}: choice {choice} but only {} task(s) enabled",
+					enabled.len()
+				);
 				break;
 			}
 			let t = enabled[choice];
 			decisions.push(json!({"step": step, "enabled": descr, "choice": choice, "task": t}));
-			traces[t].push(descr[choice].splitn(2, ':').nth(1).unwrap_or("").to_string());
+			traces[t].push(
+				descr[choice]
+					.splitn(2, ':')
+					.nth(1)
+					.unwrap_or("")
+					.to_string(),
+			);
 			si::with(|s| match s.status[t].clone() {
 				Status::AtAcquire(_, _) => {
 					s.yield_pass[t] = true;
@@ -383,7 +434,8 @@ pub fn run_sched(req: &Value) -> Value {
 			match run_to_visible(t, &mut futs, &mut results, wait_ms) {
 				Visible::Timeout => {
 					verdict = "timeout";
-					detail = format!("task {t} made no progress for {wait_ms} ms after step {step}");
+					detail =
+						format!("task {t} made no progress for {wait_ms} ms after step {step}");
 					break;
 				}
 				Visible::Panic(m) => {
@@ -414,7 +466,8 @@ pub fn run_sched(req: &Value) -> Value {
 	drop(srv);
 	drop(_enter);
 	rt.shutdown_background();
-	let (events, cps) = with_run(|r| (std::mem::take(&mut r.events), std::mem::take(&mut r.cps))).unwrap_or_default();
+	let (events, cps) = with_run(|r| (std::mem::take(&mut r.events), std::mem::take(&mut r.cps)))
+		.unwrap_or_default();
 	out["verdict"] = json!(verdict);
 	out["detail"] = json!(detail);
 	out["tasks"] = json!(ids);
